@@ -1297,7 +1297,15 @@ def run(ctx, res):
         except core.CheckBroken as ex:
             res.oblig("build:asan-variant", False, "machinery", str(ex))
     exe = private_bin(ctx, variant)
-    tmo = 120 if variant == "asan" else 12
+    # the machine is shared: scale the time limits by how slow a trivial run is right now (normally ~30 ms, ASan ~150 ms)
+    probe = []
+    for _ in range(3):
+        t = time.time()
+        subprocess.run([exe, "--version"], stdout=subprocess.DEVNULL, stderr=subprocess.DEVNULL)
+        probe.append(time.time() - t)
+    slow = min(8.0, max(1.0, sorted(probe)[1] / (0.3 if variant == "asan" else 0.06)))
+    res.extra["machine_slowness_factor"] = round(slow, 1)
+    tmo = int((120 if variant == "asan" else 12) * slow)
     workers = 6 if thorough else 4
     # closed-run guards: input-free paths are executed
     if M is not None:
@@ -1310,7 +1318,8 @@ def run(ctx, res):
 
     def run_corpus_case(c):
         files = dict((k, v.encode("latin-1")) for k, v in c["files"].items())
-        return c, files, run_case(ctx, exe, files, c["args"], (30 if variant == "asan" else 6) if c.get("expect") == "timeout" else tmo)
+        t = (30 if variant == "asan" else 6) if c.get("expect") == "timeout" else tmo * (4 if any(a.startswith("--addon") for a in c["args"]) else 1)
+        return c, files, run_case(ctx, exe, files, c["args"], t)
     with concurrent.futures.ThreadPoolExecutor(max_workers=workers) as ex:
         for c, files, o in ex.map(run_corpus_case, cases):
             res.case("corpus|" + c["name"], True, dict(tie="corpus", op=c["name"], impl="%s %s" % (o["kind"], o.get("detail", "")), model="finding " + str(c.get("finding"))))
@@ -1330,8 +1339,8 @@ def run(ctx, res):
     batch = []
     for d, lang, p in ship:
         batch.append(({os.path.basename(p): open(p, "rb").read()}, ["-q", "--language=" + lang, "--enable=all", "--inconclusive", os.path.basename(p)], d + "/" + os.path.basename(p), "shipped"))
-    n_src = 700 if thorough else 20
-    n_opt = 500 if thorough else 16
+    n_src = 450 if thorough else 20
+    n_opt = 300 if thorough else 16
     for _ in range(n_src):
         name, data, lang, desc = gen_source(rng, seeds)
         batch.append(({name: data}, gen_options(rng, lang) + [name], desc, "gen-source"))
